@@ -47,6 +47,7 @@ Fixpoint climbs_aux (depth : nat) (cs : list (list N)) : bool :=
 Definition climbs (P : list N) : bool := climbs_aux 0 (comps P).
 
 Definition HEAD : list N := [72;69;65;68].
+Definition is_reg (fs : fsys) (p : list N) : bool := match metadata fs p with Some KFile => true | _ => false end.
 Definition is_ghO (m : list N) : bool := beqs m GET || beqs m HEAD || beqs m OPTIONS.    (* GET, HEAD or OPTIONS *)
 Definition is_matching (fs : fsys) (r : request) : sres bool :=
   match path_or_panic (uri r) with SErr s => SErr s | SPanic s => SPanic s | SOk P =>
@@ -54,7 +55,7 @@ Definition is_matching (fs : fsys) (r : request) : sres bool :=
   let SP := cwd_str fs ++ P in
   match (match metadata fs SP with
          | Some KDir => match dir_index P with
-                        | SOk di => SOk (Some (can_open fs (SP ++ di)))
+                        | SOk di => SOk (Some (is_reg fs (SP ++ di)))        (* open succeeds and it is a regular file *)
                         | SPanic s => SPanic s | SErr s => SErr s end
          | _ => SOk None end) with
   | SPanic s => SPanic s | SErr s => SErr s
@@ -64,7 +65,7 @@ Definition is_matching (fs : fsys) (r : request) : sres bool :=
     let mm := is_ghO (method r) && negb (beqs (uri r) [47]) in
     if can_open fs SP || dir_idx then SOk mm
     else if ends_with SP DOT_HTML then SOk false
-    else SOk (can_open fs (cwd_str fs ++ P ++ DOT_HTML) && mm)
+    else SOk (is_reg fs (cwd_str fs ++ P ++ DOT_HTML) && mm)
   end end.
 
 (* FileExt::resolve_symlink_path, lexical *)
